@@ -3,7 +3,7 @@ From Coq Require Import ZArith List Bool.
 From Coq Require String.
 From PS.model Require Import Smt Enc Ind Prog.
 From PS.spec Require Import Spec.
-From PS.proofs Require Import Base Cons_proof Res_proof Wf_proof C06_proof Examples.
+From PS.proofs Require Import Base Cons_proof Res_proof Wf_proof C06_proof Reach_proof C02_capacity Examples.
 Import ListNotations.
 Open Scope Z_scope.
 
@@ -12,12 +12,28 @@ Open Scope Z_scope.
    (count by kind over the listed workers only; a selected worker is busy [start, end]; an
    unselected one sits on a zero-length point before time 0), pairwise disjoint busy intervals
    on every worker (cumulative units included), work amounts.
-   PARTIAL: the cumulative capacity clause (at most size tasks at any instant, spec_C02_capacity)
-   is swept on every run; its proof (pigeonhole over the unit workers) is pending. *)
+   The theorem is named _partial because the cumulative capacity clause is the separate theorem below. *)
 Theorem C02_resources_partial : forall ops st e, reaches ops st -> sat e (initialize st) ->
   forall k f, In (k, f) (spec_C02 st) -> feval e f = true.
 Proof. intros ops st e Hr. apply C02_sound. exact (proj1 (reachable_wf ops st Hr)). Qed.
 Print Assumptions C02_resources_partial.
+(* A cumulative worker of size n is busy with at most n tasks at any instant: at the start of every (acting, non-empty)
+   use, the number of acting uses whose span contains that instant is at most the size.  Pigeonhole over the unit
+   workers: every use selects at least one unit, a selected unit is busy over the whole span of the task, the busy
+   intervals of one unit are pairwise disjoint.  cumul_ok is a decidable structural hypothesis on the state (every use
+   of the cumulative worker carries the automatic selection over exactly its units with "at least 1", registered in the
+   busy dictionary of each unit, and the units are workers of the problem); the check evaluates it on every sampled
+   program (it holds whenever no user-level requirement names a unit worker directly) and on the example below. *)
+Theorem C02_cumulative_capacity : forall ops st e, reaches ops st -> cumul_ok st = true -> sat e (initialize st) ->
+  forall k f, In (k, f) (spec_C02_capacity st) -> feval e f = true.
+Proof.
+  intros ops st e Hr Hok Hs. apply C02_capacity_sound; auto. exact (proj1 (reachable_inv ops st Hr)).
+Qed.
+Print Assumptions C02_cumulative_capacity.
+Theorem C02_capacity_hypothesis_satisfiable : exists st, reaches ex2_prog st /\ cumul_ok st = true
+  /\ List.length (spec_C02_capacity st) = 2%nat.
+Proof. unfold reaches. vm_compute run. eexists. split; [reflexivity|]. split; vm_compute; reflexivity. Qed.
+Print Assumptions C02_capacity_hypothesis_satisfiable.
 Theorem C02_exclusive_instants : forall e1 s1 e2 s2,
   (e1 <= s2 \/ e2 <= s1) -> forall tau, ~ (s1 <= tau < e1 /\ s2 <= tau < e2).
 Proof. exact exclusive_instants. Qed.
